@@ -79,6 +79,9 @@ def gen(rng, max_n=8, p_sel=0.3, p_fail=0.06, mixed=True):
               script=dict(seed=rng.randrange(1 << 30)))
     if rng.random() < p_sel:
         sc["sel"] = gen_sel(rng, sc)
+    # the whole graph described in an INNER DAG that the executed DAG calls: the spliced nodes ("inner.n3") must keep
+    # every attribute they were declared with (priority, is_sequential, resource, tag, activation flag)
+    sc["nested"] = rng.random() < 0.2
     if rng.random() < 0.25:
         # reconfigure between build and run (dict / json / yaml file / plain attribute assignment)
         rc = dict(how=rng.choice(["dict", "dict", "json", "yaml", "attr"]), maxc=None, nodes={})
@@ -135,7 +138,7 @@ def apply_reconf(d, rc):
     import tempfile as _tmp
     conf = {}
     if rc["nodes"]:
-        conf["nodes"] = {(i[4:] if i.startswith("tag:") else "n%s" % i): dict(c) for i, c in rc["nodes"].items()}
+        conf["nodes"] = {(i[4:] if i.startswith("tag:") else PREFIX[0] + "n%s" % i): dict(c) for i, c in rc["nodes"].items()}
     if rc["maxc"] is not None:
         conf["max_concurrency"] = rc["maxc"]
     how = rc["how"]
@@ -239,8 +242,16 @@ def make_node(i, s):
     return node
 
 
+PREFIX = [""]     # id prefix of the scenario's nodes in the DAG that is run ("inner." when the scenario is nested)
+
+
+def norm_id(x):
+    return x[6:] if isinstance(x, str) and x.startswith("inner.") else x
+
+
 def build(sc):
     nodes = [make_node(i, s) for i, s in enumerate(sc["specs"])]
+    PREFIX[0] = "inner." if sc.get("nested") else ""
 
     def describe():
         vals = []
@@ -251,6 +262,14 @@ def build(sc):
             vals.append(nodes[i](*[vals[j] for j in s["preds"]], **kw))
         return tuple(vals)
 
+    if sc.get("nested"):
+        describe.__qualname__ = describe.__name__ = "inner"
+        inner = threadsafe_make_dag(describe, 1, False)
+
+        def outer():
+            return inner()
+        outer.__qualname__ = outer.__name__ = "describe"
+        return threadsafe_make_dag(outer, sc["maxc"], sc["is_async"])
     describe.__qualname__ = describe.__name__ = "describe"
     return threadsafe_make_dag(describe, sc["maxc"], sc["is_async"])
 
@@ -282,7 +301,7 @@ def oracle(sc, selected):
 
 
 def ids(l):
-    return None if l is None else ["n%d" % i for i in l]
+    return None if l is None else [PREFIX[0] + "n%d" % i for i in l]
 
 
 def run_scenario(sc, timeout=40):
@@ -297,7 +316,7 @@ def run_scenario(sc, timeout=40):
     sel = sc.get("sel")
     if sel is None:
         graph_nodes = None
-        real_cp = dict(d.graph_ids.compound_priority)
+        real_cp = {norm_id(k): v for k, v in d.graph_ids.compound_priority.items()}
 
         def call():
             return asyncio.run(d()) if sc["is_async"] else d()
@@ -306,8 +325,8 @@ def run_scenario(sc, timeout=40):
             ex = d.executor(root_nodes=ids(sel.get("R")), exclude_nodes=ids(sel.get("X")), target_nodes=ids(sel.get("T")))
         except BaseException as e:  # noqa: BLE001  the selection itself is C12's business (slice G)
             return dict(skipped="executor-creation-raised:" + type(e).__name__)
-        graph_nodes = {int(x[1:]) for x in ex.graph.nodes if x.startswith("n") and x[1:].isdigit()}
-        real_cp = {k: ex.graph.compound_priority[k] for k in list(ex.graph.nodes)}
+        graph_nodes = {int(norm_id(x)[1:]) for x in ex.graph.nodes if norm_id(x).startswith("n") and norm_id(x)[1:].isdigit()}
+        real_cp = {norm_id(k): ex.graph.compound_priority[k] for k in list(ex.graph.nodes)}
 
         def call():
             return asyncio.run(ex()) if sc["is_async"] else ex()
@@ -325,7 +344,7 @@ def run_scenario(sc, timeout=40):
 # ---------------------------------------------------------------------------------------------
 def failing_node_of(exc):
     import re
-    m = re.search(r"ExecNode n(\d+) ", str(exc))
+    m = re.search(r"ExecNode (?:inner\.)?n(\d+) ", str(exc))
     return int(m.group(1)) if m else None
 
 
